@@ -309,32 +309,32 @@ Record state := mkState {
   s_queue : list wrec;
   s_recs : list prec;
   s_prel : list (Z * Z);
-  s_recs_done : bool;            (* the period's pending transactions have taken effect *)
+  s_recs_old : list prec;        (* records of the period that have taken effect (they stay in the staking trie until the next period starts) *)
   s_pot : Z;                     (* header.GasRewards of the block being executed *)
   (* ghost counters: value that left or entered the ledger in the listed finding classes *)
   g_minted : Z;                  (* refund-counter gas credited to a sender but still counted as reward *)
   g_dust : Z;                    (* RewardsDistributable of validators deleted at the end of a block *)
   g_dropped : Z;                 (* pending deposits whose records were reset without taking effect *)
   g_dupcreate : Z;               (* a pending create that met an existing validator *)
-  g_negwd : Z                    (* minus the negative FinalBalance written off by processWithdrawQueue (>= 0) *)
+  g_negwd : Z                    (* value appearing because an amount that is never negative was negative: a negative FinalBalance written off by processWithdrawQueue, a negative penalty amount credited by doPenalize *)
 }.
 
-Definition set_number s x := mkState x (s_bal s) (s_nonce s) (s_adlgs s) (s_vals s) (s_stat s) (s_queue s) (s_recs s) (s_prel s) (s_recs_done s) (s_pot s) (g_minted s) (g_dust s) (g_dropped s) (g_dupcreate s) (g_negwd s).
-Definition set_bal s x := mkState (s_number s) x (s_nonce s) (s_adlgs s) (s_vals s) (s_stat s) (s_queue s) (s_recs s) (s_prel s) (s_recs_done s) (s_pot s) (g_minted s) (g_dust s) (g_dropped s) (g_dupcreate s) (g_negwd s).
-Definition set_nonce s x := mkState (s_number s) (s_bal s) x (s_adlgs s) (s_vals s) (s_stat s) (s_queue s) (s_recs s) (s_prel s) (s_recs_done s) (s_pot s) (g_minted s) (g_dust s) (g_dropped s) (g_dupcreate s) (g_negwd s).
-Definition set_adlgs s x := mkState (s_number s) (s_bal s) (s_nonce s) x (s_vals s) (s_stat s) (s_queue s) (s_recs s) (s_prel s) (s_recs_done s) (s_pot s) (g_minted s) (g_dust s) (g_dropped s) (g_dupcreate s) (g_negwd s).
-Definition set_vals s x := mkState (s_number s) (s_bal s) (s_nonce s) (s_adlgs s) x (s_stat s) (s_queue s) (s_recs s) (s_prel s) (s_recs_done s) (s_pot s) (g_minted s) (g_dust s) (g_dropped s) (g_dupcreate s) (g_negwd s).
-Definition set_stat s x := mkState (s_number s) (s_bal s) (s_nonce s) (s_adlgs s) (s_vals s) x (s_queue s) (s_recs s) (s_prel s) (s_recs_done s) (s_pot s) (g_minted s) (g_dust s) (g_dropped s) (g_dupcreate s) (g_negwd s).
-Definition set_queue s x := mkState (s_number s) (s_bal s) (s_nonce s) (s_adlgs s) (s_vals s) (s_stat s) x (s_recs s) (s_prel s) (s_recs_done s) (s_pot s) (g_minted s) (g_dust s) (g_dropped s) (g_dupcreate s) (g_negwd s).
-Definition set_recs s x := mkState (s_number s) (s_bal s) (s_nonce s) (s_adlgs s) (s_vals s) (s_stat s) (s_queue s) x (s_prel s) (s_recs_done s) (s_pot s) (g_minted s) (g_dust s) (g_dropped s) (g_dupcreate s) (g_negwd s).
-Definition set_prel s x := mkState (s_number s) (s_bal s) (s_nonce s) (s_adlgs s) (s_vals s) (s_stat s) (s_queue s) (s_recs s) x (s_recs_done s) (s_pot s) (g_minted s) (g_dust s) (g_dropped s) (g_dupcreate s) (g_negwd s).
-Definition set_recs_done s x := mkState (s_number s) (s_bal s) (s_nonce s) (s_adlgs s) (s_vals s) (s_stat s) (s_queue s) (s_recs s) (s_prel s) x (s_pot s) (g_minted s) (g_dust s) (g_dropped s) (g_dupcreate s) (g_negwd s).
-Definition set_pot s x := mkState (s_number s) (s_bal s) (s_nonce s) (s_adlgs s) (s_vals s) (s_stat s) (s_queue s) (s_recs s) (s_prel s) (s_recs_done s) x (g_minted s) (g_dust s) (g_dropped s) (g_dupcreate s) (g_negwd s).
-Definition add_minted s x := mkState (s_number s) (s_bal s) (s_nonce s) (s_adlgs s) (s_vals s) (s_stat s) (s_queue s) (s_recs s) (s_prel s) (s_recs_done s) (s_pot s) (g_minted s + x) (g_dust s) (g_dropped s) (g_dupcreate s) (g_negwd s).
-Definition add_dust s x := mkState (s_number s) (s_bal s) (s_nonce s) (s_adlgs s) (s_vals s) (s_stat s) (s_queue s) (s_recs s) (s_prel s) (s_recs_done s) (s_pot s) (g_minted s) (g_dust s + x) (g_dropped s) (g_dupcreate s) (g_negwd s).
-Definition add_dropped s x := mkState (s_number s) (s_bal s) (s_nonce s) (s_adlgs s) (s_vals s) (s_stat s) (s_queue s) (s_recs s) (s_prel s) (s_recs_done s) (s_pot s) (g_minted s) (g_dust s) (g_dropped s + x) (g_dupcreate s) (g_negwd s).
-Definition add_dupcreate s x := mkState (s_number s) (s_bal s) (s_nonce s) (s_adlgs s) (s_vals s) (s_stat s) (s_queue s) (s_recs s) (s_prel s) (s_recs_done s) (s_pot s) (g_minted s) (g_dust s) (g_dropped s) (g_dupcreate s + x) (g_negwd s).
-Definition add_negwd s x := mkState (s_number s) (s_bal s) (s_nonce s) (s_adlgs s) (s_vals s) (s_stat s) (s_queue s) (s_recs s) (s_prel s) (s_recs_done s) (s_pot s) (g_minted s) (g_dust s) (g_dropped s) (g_dupcreate s) (g_negwd s + x).
+Definition set_number s x := mkState x (s_bal s) (s_nonce s) (s_adlgs s) (s_vals s) (s_stat s) (s_queue s) (s_recs s) (s_prel s) (s_recs_old s) (s_pot s) (g_minted s) (g_dust s) (g_dropped s) (g_dupcreate s) (g_negwd s).
+Definition set_bal s x := mkState (s_number s) x (s_nonce s) (s_adlgs s) (s_vals s) (s_stat s) (s_queue s) (s_recs s) (s_prel s) (s_recs_old s) (s_pot s) (g_minted s) (g_dust s) (g_dropped s) (g_dupcreate s) (g_negwd s).
+Definition set_nonce s x := mkState (s_number s) (s_bal s) x (s_adlgs s) (s_vals s) (s_stat s) (s_queue s) (s_recs s) (s_prel s) (s_recs_old s) (s_pot s) (g_minted s) (g_dust s) (g_dropped s) (g_dupcreate s) (g_negwd s).
+Definition set_adlgs s x := mkState (s_number s) (s_bal s) (s_nonce s) x (s_vals s) (s_stat s) (s_queue s) (s_recs s) (s_prel s) (s_recs_old s) (s_pot s) (g_minted s) (g_dust s) (g_dropped s) (g_dupcreate s) (g_negwd s).
+Definition set_vals s x := mkState (s_number s) (s_bal s) (s_nonce s) (s_adlgs s) x (s_stat s) (s_queue s) (s_recs s) (s_prel s) (s_recs_old s) (s_pot s) (g_minted s) (g_dust s) (g_dropped s) (g_dupcreate s) (g_negwd s).
+Definition set_stat s x := mkState (s_number s) (s_bal s) (s_nonce s) (s_adlgs s) (s_vals s) x (s_queue s) (s_recs s) (s_prel s) (s_recs_old s) (s_pot s) (g_minted s) (g_dust s) (g_dropped s) (g_dupcreate s) (g_negwd s).
+Definition set_queue s x := mkState (s_number s) (s_bal s) (s_nonce s) (s_adlgs s) (s_vals s) (s_stat s) x (s_recs s) (s_prel s) (s_recs_old s) (s_pot s) (g_minted s) (g_dust s) (g_dropped s) (g_dupcreate s) (g_negwd s).
+Definition set_recs s x := mkState (s_number s) (s_bal s) (s_nonce s) (s_adlgs s) (s_vals s) (s_stat s) (s_queue s) x (s_prel s) (s_recs_old s) (s_pot s) (g_minted s) (g_dust s) (g_dropped s) (g_dupcreate s) (g_negwd s).
+Definition set_prel s x := mkState (s_number s) (s_bal s) (s_nonce s) (s_adlgs s) (s_vals s) (s_stat s) (s_queue s) (s_recs s) x (s_recs_old s) (s_pot s) (g_minted s) (g_dust s) (g_dropped s) (g_dupcreate s) (g_negwd s).
+Definition set_recs_old s x := mkState (s_number s) (s_bal s) (s_nonce s) (s_adlgs s) (s_vals s) (s_stat s) (s_queue s) (s_recs s) (s_prel s) x (s_pot s) (g_minted s) (g_dust s) (g_dropped s) (g_dupcreate s) (g_negwd s).
+Definition set_pot s x := mkState (s_number s) (s_bal s) (s_nonce s) (s_adlgs s) (s_vals s) (s_stat s) (s_queue s) (s_recs s) (s_prel s) (s_recs_old s) x (g_minted s) (g_dust s) (g_dropped s) (g_dupcreate s) (g_negwd s).
+Definition add_minted s x := mkState (s_number s) (s_bal s) (s_nonce s) (s_adlgs s) (s_vals s) (s_stat s) (s_queue s) (s_recs s) (s_prel s) (s_recs_old s) (s_pot s) (g_minted s + x) (g_dust s) (g_dropped s) (g_dupcreate s) (g_negwd s).
+Definition add_dust s x := mkState (s_number s) (s_bal s) (s_nonce s) (s_adlgs s) (s_vals s) (s_stat s) (s_queue s) (s_recs s) (s_prel s) (s_recs_old s) (s_pot s) (g_minted s) (g_dust s + x) (g_dropped s) (g_dupcreate s) (g_negwd s).
+Definition add_dropped s x := mkState (s_number s) (s_bal s) (s_nonce s) (s_adlgs s) (s_vals s) (s_stat s) (s_queue s) (s_recs s) (s_prel s) (s_recs_old s) (s_pot s) (g_minted s) (g_dust s) (g_dropped s + x) (g_dupcreate s) (g_negwd s).
+Definition add_dupcreate s x := mkState (s_number s) (s_bal s) (s_nonce s) (s_adlgs s) (s_vals s) (s_stat s) (s_queue s) (s_recs s) (s_prel s) (s_recs_old s) (s_pot s) (g_minted s) (g_dust s) (g_dropped s) (g_dupcreate s + x) (g_negwd s).
+Definition add_negwd s x := mkState (s_number s) (s_bal s) (s_nonce s) (s_adlgs s) (s_vals s) (s_stat s) (s_queue s) (s_recs s) (s_prel s) (s_recs_old s) (s_pot s) (g_minted s) (g_dust s) (g_dropped s) (g_dupcreate s) (g_negwd s + x).
 
 (* ---- the supply ------------------------------------------------------------------- *)
 
@@ -343,7 +343,7 @@ Definition add_negwd s x := mkState (s_number s) (s_bal s) (s_nonce s) (s_adlgs 
    + the fees collected in the block being executed *)
 Definition supply (s : state) : Z :=
   zsum (s_bal s) + vsum v_token (s_vals s) + vsum v_dist (s_vals s) + unfinished (s_queue s)
-  + pools (s_stat s) + (if s_recs_done s then 0 else pending (s_recs s)) + s_pot s.
+  + pools (s_stat s) + pending (s_recs s) + s_pot s.
 
 (* what the finding classes account for *)
 Definition leaked (s : state) : Z := g_dust s + g_dropped s + g_dupcreate s - g_minted s - g_negwd s.
@@ -385,21 +385,21 @@ Definition update_delegator (s : state) (d v : Z) (delete : bool) : state :=
 
 (* StateDB.UpdateDelegation (statedb_staking.go:245): returns new state, new validator,
    new delegation entry, stake delta, deleted flag.  [None] = the Noop returns. *)
+Definition apply_delegation (p : params) (s : state) (d : Z) (val : validator) (df : dlg) (delta : Z)
+  : state * validator * dlg * Z * bool :=
+  let tok := d_token df + delta in
+  let nstake := to_stake p tok in
+  let sdelta := nstake - d_stake df in
+  let df' := mkDlg d nstake tok in
+  let ld := dl_update (v_dlgs val) df' in
+  let nv := set_v_dlgs (set_v_money val (v_token val + delta) (v_stake val + sdelta) (v_self_token val) (v_self_stake val)) (fst ld) in
+  let s1 := update_validator s nv val in
+  (update_delegator s1 d (v_addr val) (snd ld), nv, df', sdelta, snd ld).
+
 Definition update_delegation (p : params) (s : state) (d : Z) (val : validator) (delta : Z)
   : option (state * validator * dlg * Z * bool) :=
   if delta =? 0 then None else
-  let od := dl_get (v_dlgs val) d in
-  match od, delta <? 0 with
-  | None, true => None
-  | _, _ =>
-    let df := match od with Some x => x | None => mkDlg d 0 0 end in
-    let tok := d_token df + delta in
-    let nstake := to_stake p tok in
-    let sdelta := nstake - d_stake df in
-    let df' := mkDlg d nstake tok in
-    let '(l', deleted) := dl_update (v_dlgs val) df' in
-    let nv := set_v_dlgs (set_v_money val (v_token val + delta) (v_stake val + sdelta) (v_self_token val) (v_self_stake val)) l' in
-    let s1 := update_validator s nv val in
-    let s2 := update_delegator s1 d (v_addr val) deleted in
-    Some (s2, nv, df', sdelta, deleted)
+  match dl_get (v_dlgs val) d with
+  | None => if delta <? 0 then None else Some (apply_delegation p s d val (mkDlg d 0 0) delta)
+  | Some x => Some (apply_delegation p s d val x delta)
   end.
